@@ -325,6 +325,50 @@ Theorem skipped_never_valid :
     cmd_valid t always_out_of_date VInvalid fs_ok = false.
 Proof. intros t aood fs. split; apply never_valid_cmd; reflexivity. Qed.
 
+(* ---------- a recorded non-successful value never enables the update-if-newer shortcut ---------- *)
+
+Lemma shortcut_needs_successful_prior cu am oe prior ins :
+  update_shortcut cu am oe prior ins = true -> exists v, prior = Some v /\ is_successful v = true.
+Proof.
+  unfold update_shortcut. intro H.
+  apply andb_prop in H. destruct H as [H _]. apply andb_prop in H. destruct H as [H _].
+  apply andb_prop in H. destruct H as [_ H].
+  destruct prior as [v|]; cbn [has_prior_result] in H; [|discriminate H].
+  exists v. split; [reflexivity | exact H].
+Qed.
+
+(* The recorded result is Failed / PropagatedFailure / Cancelled / Skipped / anything not successful (or there is
+   none): whatever the flags (allow-modified-outputs, outputs all present, leaked canUpdateIfNewer), the shortcut is not
+   taken; and a command that is neither cancelled, vetoed by the delegate nor skipped for its inputs is LAUNCHED
+   again. *)
+Theorem failed_prior_never_shortcuts :
+  forall (t : tool) (a cu am oe : bool) (prior : option vkind) (ins : list vkind) (x : exec_result),
+    (forall v, prior = Some v -> is_successful v = false) ->
+    update_shortcut cu am oe prior ins = false /\
+    (cs_skip (if uses_inputs t then provide_all a ins else cs_init) = false ->
+     o_executes (run_command_prior t a false true cu am oe prior ins x) = true).
+Proof.
+  intros t a cu am oe prior ins x Hp.
+  assert (Hs : update_shortcut cu am oe prior ins = false).
+  { destruct (update_shortcut cu am oe prior ins) eqn:E; [|reflexivity].
+    destruct (shortcut_needs_successful_prior _ _ _ _ _ E) as [v [Hv Hsucc]].
+    rewrite (Hp v Hv) in Hsucc. discriminate Hsucc. }
+  split; [exact Hs|].
+  intro Hskip. unfold run_command_prior. rewrite Hs. unfold run_command. cbn [andb].
+  unfold command_outcome. cbn [negb]. rewrite Hskip. destruct x; reflexivity.
+Qed.
+
+(* the shortcut is real for a successful prior: not launched, successful value *)
+Example shortcut_instance :
+  let o := run_command_prior TExternal false false true true true true (Some VSuccessfulCommand) [VExistingInput] XFailed in
+  o_executes o = false /\ o_value o = VSuccessfulCommand.
+Proof. vm_compute. split; reflexivity. Qed.
+
+Example failed_prior_instance :
+  let o := run_command_prior TExternal false false true true true true (Some VFailedCommand) [VExistingInput] XFailed in
+  o_executes o = true /\ o_value o = VFailedCommand /\ o_failures o = 1.
+Proof. vm_compute. repeat split; reflexivity. Qed.
+
 (* ---------- the build reports failure ---------- *)
 
 Theorem target_reports_iff : forall vs : list vkind, target_reports vs = true <-> In VMissingInput vs.
